@@ -206,7 +206,7 @@ func rawFrame(n *kit.Node, src, dst netip.Addr, mt frame.MessageType, sw []byte,
 func TestC10(t *testing.T) {
 	env := kit.GetEnv()
 	rep := kit.NewReport("C10", env)
-	rep.Rule = "(a) converged meshes (all connected graphs on 2-4 routers, lines/rings/stars/trees/grids up to 8 quick / 16 thorough routers, 1- and 2-byte labels): for every ordered pair (A,B) a routed ping-pong from A to B followed to quiescence; (a2) network traffic between every pair of tun-equipped routers across relays with and without a tun interface; (a4) packets of every size within 60 bytes of the pooled-buffer size classes (480, 1480, 4980, 9480) across one relay; (a3) histories on rings, grids and complete graphs: one-way traffic from every router to B, loss of each redundant link (both ends unregister it and flood disconnect notices), traffic from every router to B again, re-announcement by everyone, traffic again - each frame handed to B exactly once whenever the routers' own tables lead from A to B hop by hop over registered links; (b) adversarial forwarding state on complete graphs of 2-4 (thorough 5) routers: every assignment of 'next hop towards D' per router (includes every cycle and dead end), x initial TTL {0,1,2,3,32,255} x message class {signed, encrypted} x entry router/link, for routed frames injected over a link, and for frames each router originates itself under the same forwarding state (at most 31 crossings, TTL below 32 on the first link and strictly decreasing); label-switched frames with switch blocks over {valid path, cyclic, too short for the return label, zero-first, dangling label, non-terminated} x label maps; every link crossing of the injected frame is checked (TTL strictly decreasing, crossings <= TTL0-1, bytes preserved outside TTL/flow/switch block); non-trivial = frame crossed at least one link or had to be refused; distinct = distinct (world, injected frame)"
+	rep.Rule = "(a) converged meshes (all connected graphs on 2-4 routers, lines/rings/stars/trees/grids up to 8 quick / 16 thorough routers, 1- and 2-byte labels): for every ordered pair (A,B) a routed ping-pong from A to B followed to quiescence; (a2) network traffic between every pair of tun-equipped routers across relays with and without a tun interface; (a4) packets of every size within 60 bytes of the pooled-buffer size classes (480, 1480, 4980, 9480) across one relay; (a3) histories on rings, grids and complete graphs: one-way traffic from every router to B, loss of each redundant link (both ends unregister it and flood disconnect notices), traffic from every router to B again, re-announcement by everyone, traffic again - each frame handed to B exactly once whenever the routers' own tables lead from A to B hop by hop over registered links; (a5) a routed request sent in the same millisecond as / one millisecond after or before A's own announcements (4 step orders x 2 gaps); (r) requests, replies and traffic of 6 sizes (thorough 14) over real links (LinkBase over harness-owned streams) whose transport hands data over in segments of {unlimited,1,7,700,1500} bytes (thorough 10 segment sizes); (b) adversarial forwarding state on complete graphs of 2-4 (thorough 5) routers: every assignment of 'next hop towards D' per router (includes every cycle and dead end), x initial TTL {0,1,2,3,32,255} x message class {signed, encrypted} x entry router/link, for routed frames injected over a link, and for frames each router originates itself under the same forwarding state (at most 31 crossings, TTL below 32 on the first link and strictly decreasing); label-switched frames with switch blocks over {valid path, cyclic, too short for the return label, zero-first, dangling label, non-terminated} x label maps; every link crossing of the injected frame is checked (TTL strictly decreasing, crossings <= TTL0-1, bytes preserved outside TTL/flow/switch block); non-trivial = frame crossed at least one link or had to be refused; distinct = distinct (world, injected frame)"
 	rep.Assumptions = []string{
 		"transit frames are relayed without authentication (by design), so injected frames need no valid seal",
 		"deliveries are sequential (one handler invocation at a time), FIFO in (a); a single unicast frame has one frame in flight at a time, so its delivery order is unique",
@@ -373,7 +373,7 @@ func TestC10(t *testing.T) {
 			must(kit.KeySessions(a, b))
 			var sizes []int
 			for _, c := range []int{480, 1480, 4980, 9480} {
-				for n := c - 60; n <= c + 60; n++ {
+				for n := c - 60; n <= c+60; n++ {
 					sizes = append(sizes, n)
 				}
 			}
@@ -412,6 +412,66 @@ func TestC10(t *testing.T) {
 			}
 			rep.Outcome("traffic/size-sweep")
 		})
+	}
+
+	// ---------------- (a5) a routed request right after (or before) one of A's own
+	// announcements, within the same millisecond of A's clock and one millisecond apart.
+	for _, g := range []graph{line(2), line(3), ring(3), star(4)} {
+		for _, order := range []string{"announce,deliver,request", "announce,request", "request,announce", "announce,announce,request"} {
+			for _, gap := range []time.Duration{0, time.Millisecond} {
+				if !mine() {
+					continue
+				}
+				synctest.Test(t, func(t *testing.T) {
+					ms := build(g, false)
+					ms.converge()
+					for ai, a := range ms.nodes {
+						for bi, b := range ms.nodes {
+							if ai == bi {
+								continue
+							}
+							time.Sleep(7 * time.Millisecond)
+							desc := fmt.Sprintf("%s %s->%s steps=%s gap=%s", g.name, a.Name, b.Name, order, gap)
+							var notify <-chan struct{}
+							sent := true
+							for si, step := range strings.Split(order, ",") {
+								if si > 0 && step != "deliver" {
+									time.Sleep(gap)
+								}
+								switch step {
+								case "announce":
+									for _, l := range a.Peering().GetLinks() {
+										must(a.Router().AnnouncePing.Send(l.Peer()))
+									}
+								case "deliver":
+									ms.drain(10000)
+								case "request":
+									n, _, err := a.Router().PingPong.Send(b.Identity().IP, false, 0)
+									if err != nil {
+										rep.Violate("near-announcement/request-not-sent", fmt.Sprintf("routed request could not be sent: %v; %s", err, desc), desc)
+										sent = false
+									}
+									notify = n
+								}
+							}
+							ms.drain(10000)
+							evals++
+							nontrivial++
+							if !sent {
+								continue
+							}
+							select {
+							case <-notify:
+								rep.Outcome("near-announcement/ok")
+							default:
+								rep.Violate("near-announcement/no-reply", "request did not reach B or B's reply did not reach A: "+desc, desc)
+								rep.Outcome("near-announcement/failed")
+							}
+						}
+					}
+				})
+			}
+		}
 	}
 
 	// ---------------- (a3) histories: traffic, loss of a redundant link, re-convergence, traffic.
